@@ -140,6 +140,13 @@ package main
 //@ ghost func keyFP(k any) string
 //@ func getKeyFingerprint
 //@   assume ret1 == nil ==> ret0 == keyFP(key)
+// ... which is the lower-case hexadecimal SHA-256 of the key's SSH wire form, the form the configured deny list uses:
+// the value returned is the one formatted with %x in this call, after a SHA-256 was set up
+//@   atcall crypto/sha256.New requires () :: true                                                          #C06.fingerprint-is-a-sha256 @C06
+//@   atcall fmt.Sprintf requires (format string, a []any) :: format == "%x" && len(a) == 1                  #C06.fingerprint-is-lower-case-hex @C06
+//@   atcall fmt.Sprintf sets ghostFingerprintText string (format string, a []any, out string) :: out
+//@   ensures ret1 == nil ==> ret0 == ghostFingerprintText                                                  #C06.fingerprint-is-the-formatted-digest @C06
+//@ ghost var ghostFingerprintText string
 //@ opaque func keymasterKeyFP(state *RuntimeState, fp string) bool = (exists i int :: 0 <= i && i < len(state.KeymasterPublicKeys) && fp == keyFP(state.KeymasterPublicKeys[i]))
 //@ opaque func deniedFP(state *RuntimeState, fp string) bool = (exists i int :: 0 <= i && i < len(state.Config.DenyTrustData.KeyDenyFPsshSha256) && fp == state.Config.DenyTrustData.KeyDenyFPsshSha256[i])
 // "the verified chains contain a leaf for `user`, issued at notBefore, signed directly by a published keymaster key, whose own key is not deny-listed"
@@ -911,3 +918,15 @@ package main
 //@   atcall (*RuntimeState).getRequiredWebUIAuthLevel sets ghostWebUILevel int (s2 *RuntimeState, lvl int) :: lvl
 //@   atcall (*RuntimeState).getRequiredWebUIAuthLevel sets ghostWebUILevelKnown bool (s2 *RuntimeState, lvl int) :: true
 //@   atcall (*RuntimeState).checkAuth requires (s2 *RuntimeState, w2 http.ResponseWriter, r2 *http.Request, requiredAuthType int) :: ghostWebUILevelKnown && requiredAuthType == ghostWebUILevel   #C01.cli-hand-over-needs-a-web-ui-level-session @C01,C05
+
+// ---- C05 / C15: what is stored of a profile is what the code assigns -------------------------------------------
+// profiles are written with encoding/gob, the signed tokens with encoding/json: both skip unexported fields without
+// a word, so the accepted-TOTP period, token lists, bootstrap OTP ... must all be exported fields
+//@ storedfields userProfile, authInfoJWT, storageStringDataJWT, keymasterdCodeToken, bearerAccessToken, openIDConnectIDToken  #C15.stored-fields-are-exported @C15,C05,C04
+
+// ---- C04 / C12: "this server" as issuer and audience is the server's own host identity -------------------------
+//@ func (*RuntimeState).idpGetIssuer
+//@   inline always
+//@   ensures state.Config.Base.HttpAddress == ":443" ==> ret0 == "https://" + state.HostIdentity                                    #C04.issuer-is-this-servers-identity @C04,C12
+//@   ensures state.Config.Base.HttpAddress != ":443" ==> ret0 == "https://" + state.HostIdentity + state.Config.Base.HttpAddress      #C04.issuer-is-this-servers-identity-and-port @C04,C12
+//@   modifies nothing
